@@ -124,20 +124,35 @@ impl<'a, R, C> Cache<super::Issues<'a, R>, C> {
     }
 
     /// Remove the given `id` from the [`super::Issues`] storage, and
-    /// removing the entry from the `cache`.
+    /// removing the entry from the `cache`, unless the object is still
+    /// referenced by other peers, in which case the entry is refreshed.
     pub fn remove<G>(&mut self, id: &IssueId, signer: &Device<G>) -> Result<(), super::Error>
     where
         G: crypto::signature::Signer<crypto::Signature>,
         R: ReadRepository + SignRepository + cob::Store<Namespace = NodeId>,
-        C: Remove<Issue>,
+        C: Update<Issue> + Remove<Issue>,
     {
         self.store.remove(id, signer)?;
-        self.cache
-            .remove(id)
-            .map_err(|e| super::Error::CacheRemove {
-                id: *id,
-                err: e.into(),
-            })?;
+        // Nb. Only the signer's reference is removed. If other peers hold a
+        // reference to the issue, it still exists in storage.
+        match self.store.get(id)? {
+            Some(issue) => {
+                self.cache
+                    .update(&self.rid(), id, &issue)
+                    .map_err(|e| super::Error::CacheUpdate {
+                        id: *id,
+                        err: e.into(),
+                    })?;
+            }
+            None => {
+                self.cache
+                    .remove(id)
+                    .map_err(|e| super::Error::CacheRemove {
+                        id: *id,
+                        err: e.into(),
+                    })?;
+            }
+        }
         Ok(())
     }
 
